@@ -50,6 +50,11 @@ func (d *Decoder) ExpectTypesInInterface(types ...reflect.Type) {
 	d.expectedTypes = types
 }
 
+// ExpectedTypes returns predictions, which are not used yet. See Decoder.ExpectTypesInInterface description
+func (d *Decoder) ExpectedTypes() []reflect.Type {
+	return d.expectedTypes
+}
+
 func (d *Decoder) read(buf []byte) {
 	if d.err != nil {
 		return
